@@ -339,8 +339,12 @@ class DSDLDefinition(ReadableDSDLFile):
     @property
     def text(self) -> str:
         if self._text is None:
-            with open(self._file_path) as f:
-                self._text = str(f.read())
+            # DSDL definitions are UTF-8 text regardless of the locale of the process.
+            with open(self._file_path, encoding="utf-8") as f:
+                try:
+                    self._text = str(f.read())
+                except UnicodeDecodeError as ex:
+                    raise InvalidDefinitionError("The file is not valid UTF-8 text: %s" % ex, self._file_path) from None
         return self._text
 
     @property
